@@ -553,7 +553,8 @@ pub fn gen_history(g: &mut Gen, p: &Profile, contracts_hint: &[&str]) -> History
         codes.push(c);
     }
     let staking = g.chance(p.staking_p, 16);
-    let setup = Setup { balances, codes, validators: if staking { 2 } else { 0 }, unbonding_time: g.pick(&[60u64, 0, 10]) };
+    let addr_pool = if g.chance(if p.registry || p.hostile_keys { 4 } else { 1 }, 16) { 2 + g.below(3) as u8 } else { 0 };
+    let setup = Setup { balances, codes, validators: if staking { 2 } else { 0 }, unbonding_time: g.pick(&[60u64, 0, 10]), addr_pool };
     let hostile = hostile_keys(contracts_hint);
     let mut txs = vec![];
     let ntx = 2 + g.below(p.max_tx);
